@@ -33,6 +33,10 @@ class ConclusionSelector(LogicalBinaryOperator, ABC):
         default_factory=lambda: {True: SeenSet(), False: SeenSet()}, init=False
     )
 
+    def _start_evaluation_(self) -> None:
+        for seen in self.concluded_before.values():
+            seen.clear()
+
     def update_conclusion(
         self, output: OperationResult, conclusions: typing.Set[Conclusion]
     ) -> None:
